@@ -422,7 +422,7 @@ fn c20_resp_decode_total_fixed() {
     resp_total(&mut buf, n, 0x0A);
     resp_total(&mut buf, n, 0x0B);
 }
-// @obl harness=c20_resp_decode_total_unknown id=C20.decode_total[Response/undefined/<=14] tier=thorough funcs="Response::from_bytes,StatusCode::try_from,read_string_with_len" bounds="every byte string of length 0..=14 with status byte in {0C,7F,FF} (undefined)" stubs="std::fmt::format,String::from_utf8_lossy" unwind=16
+// @obl harness=c20_resp_decode_total_unknown id=C20.decode_total[Response/undefined/<=14] tier=off funcs="Response::from_bytes,StatusCode::try_from,read_string_with_len" bounds="every byte string of length 0..=14 with status byte in {0C,7F,FF} (undefined)" stubs="std::fmt::format,String::from_utf8_lossy" unwind=16 reason="CBMC does not finish within 1500 s even alone (every byte string <= 14 behind an undefined status byte); the per-status decode_total harnesses stay"
 #[kani::proof]
 #[kani::unwind(16)]
 #[kani::stub(std::fmt::format, stub_format)]
